@@ -225,6 +225,9 @@ class Check:
 
     def finish(self):
         os.makedirs(EVID, exist_ok=True)
+        import tlc as _tlc
+        if _tlc.TRUNCATED and not self.violations:
+            raise FrameworkError("the rejection budget of a trace validation ran out (%s) and everything examined so far is a listed finding: part of the trace was not examined" % ", ".join(_tlc.TRUNCATED))
         for key, (text, n) in sorted(self.known_hits.items()):
             print("KNOWN-FINDING: property=%s %s [key=%s, %d witness(es) this run]" % (self.pid, text, key, n))
         paths = []
